@@ -1325,11 +1325,27 @@ class ClassNode(AstNode, NamespaceMixin):
         new.scope_file = self.scope_file[:]
 
         # Clone all functions.
+        # A function declared in a block keeps the block's Scopes
+        # between its own and the new class's.
+        def rebase(scope, old_root, new_root, memo):
+            parent = scope.get_parent()
+            if parent is None or parent is old_root:
+                return new_root
+            if id(parent) not in memo:
+                newparent = parent.clone()
+                newparent.reparent(rebase(parent, old_root, new_root, memo))
+                memo[id(parent)] = newparent
+            return memo[id(parent)]
+
+        fmtmemo = {}
+        optmemo = {}
         newfcns = []
         for fcn in self.functions:
             newfcn = fcn.clone()
-            newfcn.fmtdict.reparent(new.fmtdict)
-            newfcn.options.reparent(new.options)
+            newfcn.fmtdict.reparent(
+                rebase(fcn.fmtdict, self.fmtdict, new.fmtdict, fmtmemo))
+            newfcn.options.reparent(
+                rebase(fcn.options, self.options, new.options, optmemo))
             newfcns.append(newfcn)
         new.functions = newfcns
 
